@@ -1,8 +1,8 @@
 #!/bin/sh
 # Re-run the current checks (quick tier) against every seeded change already confirmed with the suite (rounds 1-3 and the re-introduced
 # defects); the earlier suite confirmation is kept in meta.json (--no-suite). Needs the seed sources under /tmp/seedout{,2,3}.
-OUT=/tmp/w/recheck.log; : > $OUT
-for id in C01 C02 C03 C04 C05 C06 C07 C08 C09 C10 C11 C12 C13 C14 C15 C16 C17 C18 C19 C20; do
+OUT=${RECHECK_LOG:-/tmp/w/recheck.log}; : > $OUT
+for id in ${RECHECK_IDS:-C01 C02 C03 C04 C05 C06 C07 C08 C09 C10 C11 C12 C13 C14 C15 C16 C17 C18 C19 C20}; do
   e1=""; e2=""; e3=""
   case $id in C04) e1=",C05"; e2=",C05";; C16) e1=",C03"; e2=",C17";; C02) e2=",C03"; e3=",C03,C16";; C11) e3=",C13";; C14) e3=",C15";; C06) e3=",C16";; esac
   python3 /verif/tools/seedcheck.py $id /tmp/seedout/$id --no-suite --checks $id$e1 >> $OUT 2>&1
@@ -12,7 +12,7 @@ for id in C01 C02 C03 C04 C05 C06 C07 C08 C09 C10 C11 C12 C13 C14 C15 C16 C17 C1
     python3 /verif/tools/seedcheck.py $id /tmp/seedout$r/$id --no-suite --suffix $r --checks $(cat /tmp/seedout$r/$id/.checks 2>/dev/null || echo $id) >> $OUT 2>&1
   done
 done
-for r in C08 C08b C11 C16 C20 C18a C18b C14 C15; do
+for r in ${RECHECK_REFIX-C08 C08b C11 C16 C20 C18a C18b C14 C15}; do
   pid=$(echo $r | cut -c1-3)
   python3 /verif/tools/seedcheck.py REFIX-$r /tmp/seedout/R$r --only A --no-suite --checks $pid >> $OUT 2>&1
 done
